@@ -103,10 +103,13 @@ def run_property(pid, tier, seed):
             st = a['functions'].get(f['key'], dict(status='undecided', errors=[], time_ms=None))
             functions.append(dict(function=f['name'], unit=unit, repo_file=f['repo_file'], repo_line=f['repo_line'],
                                   repo_end_line=f.get('repo_end_line', f['repo_line']), sha256=f['sha256'], rewrites=f['rewrites'],
-                                  status=st['status']))
+                                  lost_rewrites=f.get('lost_rewrites', []), status=st['status']))
             ob = dict(name=f['key'], engine='verus', backend='verus/z3', status=st['status'],
                       time_s=(st['time_ms'] or 0) / 1000.0, contract=f['desc'],
                       where='%s:%d' % (f['repo_file'], f['repo_line']), errors=st['errors'])
+            if f.get('lost_rewrites'):
+                ob['note'] = 'expected extraction rewrites that no longer match the source (the code changed there): ' + \
+                             '; '.join(f['lost_rewrites'])[:400]
             if st['status'] == 'vacuous':
                 undecided.append('unit %s: vacuity canary of %s verified (contradictory precondition?)' % (unit, f['key']))
             if st['status'] == 'undecided' and not a['undecided']:
